@@ -18,7 +18,8 @@ let () = iter_lines (fun line ->
     let bal = int_of_string bal in
     let cfg = { nworkers = nat_of_int (int_of_string nw); gcap = z_of_int (int_of_string gc);
                 lcap = z_of_int (int_of_string lc); stealing = z_of_int (int_of_string steal);
-                interval = z_of_int (if bal > 0 then bal else -1); bodies = bodies } in
+                interval = z_of_int (if bal > 0 then bal else -1); bodies = bodies;
+                blocks = [List.init (int_of_string nw) nat_of_int] } in
     let s0 = init cfg progs in
     let nt = List.length (threads s0) in
     let tids = List.init nt nat_of_int in
